@@ -528,6 +528,21 @@ def rule_MP11(rep, prog, q):
                         "_dispatch_async_and_wait_recurse stores into the waiter's dc_flags a value that is not the one the next level is acquired with (e.g. the "
                         "previous level's barrier bit): a waiter pushed onto a concurrent level still flagged as a barrier is handed the full barrier lock, "
                         "which the non-barrier completion never gives back - the level stays locked and everything behind it is stranded", sample={"store": st.loc})
+    if len(one) == 1:
+        # ... and that kind is chosen from the width of the level it will be used on: the queue whose dq_width is tested is the queue that
+        # becomes `dq` for the next iteration (the target just stepped to), not the level already acquired
+        dqphi = fn.inst(one[0].ops[0])
+        nextq = {root_ptr(fn, v) for v, frm in dqphi.ops} - {("a", 0)} if (dqphi is not None and dqphi.op == "phi") else set()
+        wts = []
+        for i in fn.all_insts():
+            if i.op in ("br", "select") and i.ops:
+                w = width1_test_of(prog, fn, i.ops[0])
+                if w:
+                    wts.append(w)
+        rep.require(rid, bool(wts) and bool(nextq) and all(root in nextq for pol, root, ic in wts), fn.file, fn.name, "next-level-kind-from-current-level",
+                    "_dispatch_async_and_wait_recurse chooses the lock kind for the next level from the dq_width of a queue that is not the one it steps to: a "
+                    "non-barrier and_wait through a concurrent queue takes the serial queue below with a shared width reservation, so two callers run at "
+                    "once (and the barrier-complete on the way back no longer pairs)", sample={"width_tests": len(wts)})
     fn = prog.fn("_dispatch_async_and_wait_invoke")
     rep.saw(fn)
     pops = calls_named(fn, "_dispatch_thread_frame_pop")
@@ -540,6 +555,24 @@ def rule_MP11(rep, prog, q):
         rep.require(rid, any(fn.dominates(p_, c) for p_ in pops), st.loc, fn.name, "stop-queue-read-under-rebased-frame",
                     "_dispatch_async_and_wait_invoke reads the current queue for dc_other while the rebased frame (top_dq) is still installed: the waiter's "
                     "*_complete_recurse(top_dq, stop_dq = top_dq) returns at once and the queues it locked on the way down are never unlocked", sample={"store": st.loc})
+
+
+def rule_TB12(rep, prog, q):
+    rid = rep.rule("C03-TB12", "a queue is moved off the target it was given only when that target is one of the global root queues (a QoS attribute picks the matching "
+                   "root queue): a workloop, the main queue or a run-loop queue given as target is kept", floor=1)
+    fn = prog.fn("_dispatch_queue_priority_inherit_from_target")
+    rep.saw(fn)
+    swaps = calls_named(fn, "_dispatch_get_root_queue")
+    guard = calls_named(fn, "_dispatch_is_in_root_queues_array")
+    if not swaps:
+        rep.unknown(rid, "no _dispatch_get_root_queue call in _dispatch_queue_priority_inherit_from_target")
+    for c in swaps:
+        cx = paths.dom_ctx(fn, c)
+        ok = any(cx.truth.get(g.id) is True and root_ptr(fn, g.ops[0]) == ("a", 1) for g in guard)
+        rep.require(rid, ok, c.loc, fn.name, "target-replaced-without-root-array-test",
+                    "_dispatch_queue_priority_inherit_from_target replaces the given target by a root queue without having established that the target is one of "
+                    "the global root queues (_dispatch_is_in_root_queues_array): a QoS-attributed queue targeted at a workloop / the main queue is silently put "
+                    "on a root queue (or gets a BASE role), so it no longer runs under the serial bottom it was given", sample={"call": c.loc, "guards": len(guard)})
 
 
 def run(rep, tier="quick", srcdir=None, only=None):
@@ -570,6 +603,8 @@ def run(rep, tier="quick", srcdir=None, only=None):
         rule_WL10(rep, prog, q)
     if want("C03-MP11"):
         rule_MP11(rep, prog, q)
+    if want("C03-TB12"):
+        rule_TB12(rep, prog, q)
 
 
 MANIFEST = {
